@@ -195,7 +195,7 @@ class Automation:
             duration = self.default_duration
         self.modulations.clear()
 
-        duration_ticks = int(math.ceil(duration / self.tick_duration))
+        duration_ticks = int(math.ceil(round(duration / self.tick_duration, 8)))
         if duration_ticks == 0:
             return
     
@@ -216,7 +216,7 @@ class Automation:
         if duration is None:
             duration = self.default_duration
 
-        duration_ticks = int(math.ceil(duration / self.tick_duration))
+        duration_ticks = int(math.ceil(round(duration / self.tick_duration, 8)))
         delta_per_tick = value / (duration_ticks if duration_ticks > 0 else 1)
         envelope_ticks = int(envelope * duration_ticks)
         modulation = AutomationModulation(delta_per_tick=delta_per_tick,
